@@ -33,16 +33,17 @@ type Addr struct {
 }
 
 type LoopInfo struct {
-	header    *ssa.BasicBlock
-	blocks    map[*ssa.BasicBlock]bool
-	ordinal   int
-	mod       map[string]string // memory name -> sort
-	dirty     map[string]bool   // memories in which the loop may write objects that existed before the loop
-	phiEnv    map[string]TV     // invariant names -> header values (filled when the header is encoded)
-	entryVals map[*ssa.Phi]TV
-	variant0  string    // value of the loop variant at the header (explicit decreases clause, or derived for a range loop)
-	rangePhi  *ssa.Phi  // range loop: the index phi ...
-	rangeLen  ssa.Value // ... and the length it runs up to (evaluated once, before the loop)
+	header     *ssa.BasicBlock
+	blocks     map[*ssa.BasicBlock]bool
+	ordinal    int
+	mod        map[string]string // memory name -> sort
+	dirty      map[string]bool   // memories in which the loop may write objects that existed before the loop
+	phiEnv     map[string]TV     // invariant names -> header values (filled when the header is encoded)
+	entryVals  map[*ssa.Phi]TV
+	variant0   string          // value of the loop variant at the header (explicit decreases clause, or derived for a range loop)
+	rangePhi   *ssa.Phi        // range loop: the index phi ...
+	rangeLen   ssa.Value       // ... and the length it runs up to (evaluated once, before the loop)
+	headerPhis map[*ssa.Phi]TV // values of the header phis in the header state
 }
 
 type edge struct {
@@ -1148,52 +1149,100 @@ func (fr *Frame) loopDecr(li *LoopInfo) *Clause {
 	return nil
 }
 
-// rangeShape recognises the SSA of a range loop over a slice, array or string length: the header is
-//   i = phi [-1, i+1]; i1 = i + 1; if i1 < n goto body else done      (n evaluated once, before the loop)
-func rangeShape(li *LoopInfo) (*ssa.Phi, ssa.Value) {
-	var phi *ssa.Phi
-	for _, instr := range li.header.Instrs {
-		p, ok := instr.(*ssa.Phi)
-		if !ok {
-			break
-		}
-		if p.Comment == "rangeindex" {
-			phi = p
-		}
-	}
-	if phi == nil || len(li.header.Instrs) == 0 {
-		return nil, nil
+// countingShape proposes a variant for a counting loop from its SSA: the header ends in `if X < Y` (or <=, >, >=) where
+// one side is a header phi i (or i + c) that every back edge advances by a positive (negative) constant and the other side
+// is loop-invariant - a value defined outside the loop, or len(v) of such a value (a slice VALUE cannot change).  The
+// proposal is `bound - i` (`i - bound` when counting down).  It covers the range loops (i = phi[-1, i+1]; if i+1 < n) and
+// the plain index loops.  The proposal is only a candidate: the obligation `0 <= V(header) && V(back edge) < V(header)` is
+// still discharged by the solver, so a wrong guess fails instead of passing.
+func (fr *Frame) countingShape(li *LoopInfo) (phi *ssa.Phi, bound ssa.Value, down bool) {
+	if len(li.header.Instrs) == 0 {
+		return nil, nil, false
 	}
 	iff, ok := li.header.Instrs[len(li.header.Instrs)-1].(*ssa.If)
 	if !ok {
-		return nil, nil
+		return nil, nil, false
 	}
 	cmp, ok := iff.Cond.(*ssa.BinOp)
-	if !ok || cmp.Op != token.LSS {
-		return nil, nil
+	if !ok {
+		return nil, nil, false
 	}
-	inc, ok := cmp.X.(*ssa.BinOp)
-	if !ok || inc.Op != token.ADD || inc.X != ssa.Value(phi) {
-		return nil, nil
+	// the loop continues on the true branch
+	if len(li.header.Succs) != 2 || !li.blocks[li.header.Succs[0]] || li.blocks[li.header.Succs[1]] {
+		return nil, nil, false
 	}
-	if c, ok := inc.Y.(*ssa.Const); !ok || c.Value == nil || c.Value.String() != "1" {
-		return nil, nil
+	headerPhi := func(v ssa.Value) *ssa.Phi {
+		if b, ok := v.(*ssa.BinOp); ok && (b.Op == token.ADD || b.Op == token.SUB) {
+			if _, isC := b.Y.(*ssa.Const); isC {
+				v = b.X
+			}
+		}
+		if p, ok := v.(*ssa.Phi); ok && p.Block() == li.header {
+			return p
+		}
+		return nil
 	}
-	// the phi must be fed by that increment on every back edge
-	for k, p := range li.header.Preds {
-		if li.header.Dominates(p) && phi.Edges[k] != ssa.Value(inc) {
-			return nil, nil
+	invariant := func(v ssa.Value) bool {
+		if _, ok := v.(*ssa.Const); ok {
+			return true
+		}
+		if c, ok := v.(*ssa.Call); ok {
+			if b, ok := c.Call.Value.(*ssa.Builtin); ok && b.Name() == "len" && len(c.Call.Args) == 1 {
+				v = c.Call.Args[0]
+				if _, isPhi := v.(*ssa.Phi); isPhi {
+					return false
+				}
+			}
+		}
+		d := defBlock(v)
+		return d != nil && !li.blocks[d] || d == nil
+	}
+	var x, y ssa.Value
+	switch cmp.Op {
+	case token.LSS, token.LEQ:
+		x, y, down = cmp.X, cmp.Y, false
+	case token.GTR, token.GEQ:
+		x, y, down = cmp.X, cmp.Y, true
+	default:
+		return nil, nil, false
+	}
+	p := headerPhi(x)
+	if p == nil || !invariant(y) {
+		// the counter may be on the right: n > i
+		if q := headerPhi(y); q != nil && invariant(x) {
+			p, y, down = q, x, !down
+		} else {
+			return nil, nil, false
 		}
 	}
-	if d := defBlock(cmp.Y); d != nil && li.blocks[d] {
-		return nil, nil // the bound is recomputed inside the loop: not a range loop
+	// every back edge advances the counter by a constant of the right sign
+	for k, pr := range li.header.Preds {
+		if !li.header.Dominates(pr) {
+			continue
+		}
+		step, ok := p.Edges[k].(*ssa.BinOp)
+		if !ok || step.X != ssa.Value(p) || (step.Op != token.ADD && step.Op != token.SUB) {
+			return nil, nil, false
+		}
+		c, ok := step.Y.(*ssa.Const)
+		if !ok || c.Value == nil {
+			return nil, nil, false
+		}
+		n := c.Int64()
+		if step.Op == token.SUB {
+			n = -n
+		}
+		if (!down && n <= 0) || (down && n >= 0) {
+			return nil, nil, false
+		}
 	}
-	return phi, cmp.Y
+	return p, y, down
 }
 
-// headerVariant evaluates the loop variant in the (havocked) header state.
+// headerVariant evaluates an explicit loop variant (decreases clause) in the (havocked) header state.
 func (fr *Frame) headerVariant(li *LoopInfo, env *SpecEnv, phiVals map[*ssa.Phi]TV) {
 	li.variant0, li.rangePhi, li.rangeLen = "", nil, nil
+	li.headerPhis = phiVals
 	if dc := fr.loopDecr(li); dc != nil {
 		tv, err := env.tr(dc.E)
 		if err != nil {
@@ -1205,11 +1254,6 @@ func (fr *Frame) headerVariant(li *LoopInfo, env *SpecEnv, phiVals map[*ssa.Phi]
 			return
 		}
 		li.variant0 = tv.T
-		return
-	}
-	if phi, n := rangeShape(li); phi != nil {
-		li.rangePhi, li.rangeLen = phi, n
-		li.variant0 = "(- " + fr.val(n).T + " " + phiVals[phi].T + ")"
 	}
 }
 
@@ -1230,10 +1274,25 @@ func (fr *Frame) checkVariant(li *LoopInfo, phiVals map[*ssa.Phi]TV, st State, p
 		fr.oblige("variant", name, dc.Props, and("(<= 0 "+li.variant0+")", "(< "+tv.T+" "+li.variant0+")"), "decreases "+dc.Src, pos, "")
 		return
 	}
-	if li.rangePhi != nil {
-		v1 := "(- " + fr.val(li.rangeLen).T + " " + phiVals[li.rangePhi].T + ")"
-		fr.oblige("variant", name, []string{"C03"}, and("(<= 0 "+li.variant0+")", "(< "+v1+" "+li.variant0+")"), "range loop: bound - index decreases", pos, "derived")
-		return
+	if phi, bound, down := fr.countingShape(li); phi != nil {
+		// derived variant: all header values are defined by now (the bound may be a len(...) computed in the header)
+		b, ok := fr.vals[bound]
+		if !ok {
+			if c, isC := bound.(*ssa.Const); isC {
+				b, ok = fr.val(c), true
+			}
+		}
+		p0, ok0 := li.headerPhis[phi]
+		if ok && ok0 {
+			v0 := "(- " + b.T + " " + p0.T + ")"
+			v1 := "(- " + b.T + " " + phiVals[phi].T + ")"
+			if down {
+				v0 = "(- " + p0.T + " " + b.T + ")"
+				v1 = "(- " + phiVals[phi].T + " " + b.T + ")"
+			}
+			fr.oblige("variant", name, []string{"C03"}, and("(<= 0 "+v0+")", "(< "+v1+" "+v0+")"), "counting loop: distance of the counter from its bound decreases", pos, "derived")
+			return
+		}
 	}
 	fr.oblige("variant", name+"-missing", []string{"C03"}, "false", "a loop that is not a range loop needs a decreases clause", pos, "")
 }
